@@ -681,7 +681,9 @@ func (w *vWorld) scanSpawned() {
 			}
 		}
 		switch {
-		case isSched && pj != nil:
+		case !isCancel && pj != nil && (isSched || true):
+			// a goroutine that carries a job and is not the stop delivery is the job's scheduler
+			// goroutine, whatever the closure is called after a refactoring
 			vj := w.byJob(pj)
 			if vj == nil {
 				verifFail("harness: goroutine for unknown job")
